@@ -331,19 +331,32 @@ let termchk line =
 (* termproj: a session output line -> per step the result, line, cursor, prompt and what the terminal shows after the step's bytes
    (visible row, cursor column, whether a sequence is pending). The projection C06 compares: two outputs with the same
    screen are the same, however the bytes were produced. *)
+let row_str (r : n list list) : string = let v = List.concat (visible r) in if v = [] then "." else hex v
+let lex_str = function LG -> "g" | _ -> "pending"
+
 let termproj line =
   let steps = Str.split (Str.regexp_string " ; ") line in
   let t = ref tinit in
   let out = List.map (fun st ->
     match String.split_on_char '|' st with
-    | [r; text; cur; _; pidx; _; sink] ->
+    | [r; text; cur; hist; pidx; calls; sink] ->
       let ops = if sink = "-" then [] else String.split_on_char ',' sink in
       let bytes = List.concat_map (fun o -> if String.length o > 0 && o.[0] = 'W' then unhex (String.sub o 1 (String.length o - 1)) else []) ops in
+      let failed = List.exists (fun o -> String.length o > 0 && o.[0] = 'X') ops in
+      let before = List.length (fst !t).rows in
       t := tfeed !t bytes;
-      Printf.sprintf "%s|%s|%s|%s|%s:%d:%s" r text cur pidx (hex (List.concat (visible (fst !t).row))) (int_of_nat (fst !t).col)
-        (match snd !t with LG -> "g" | _ -> "pending")
+      let rs = (fst !t).rows in
+      let fresh = List.rev (List.filteri (fun i _ -> i < List.length rs - before) rs) in
+      Printf.sprintf "%s|%s|%s|%s|%s|%s|%s|%s:%d:%s%s" r text cur hist pidx calls (String.concat "/" (List.map row_str fresh))
+        (row_str (fst !t).row) (int_of_nat (fst !t).col) (lex_str (snd !t)) (if failed then "!" else "")
     | _ -> "malformed") steps in
   join " ; " out
+
+(* screen: "<hex bytes>" (optionally prefixed by a result word) -> finished rows, current row, column, lexer state after feeding them to a fresh terminal *)
+let screen line =
+  let (pre, hx) = match String.index_opt line ' ' with Some _ -> split_once ' ' line | None -> ("", line) in
+  let t = tfeed tinit (unhex hx) in
+  Printf.sprintf "%s %s|%s|%d|%s" pre (String.concat "/" (List.map row_str (List.rev (fst t).rows))) (row_str (fst t).row) (int_of_nat (fst t).col) (lex_str (snd t))
 
 let edspec line =
   let (cap, ops) = split_once ' ' line in
@@ -393,6 +406,6 @@ let acspec line =
 
 let dispatch (e : string) : string -> string =
   match e with
-  | "quote" -> quote | "tokspec" -> tokspec | "wrspec" -> wrspec | "termchk" -> termchk | "termproj" -> termproj | "edspec" -> edspec
+  | "quote" -> quote | "tokspec" -> tokspec | "wrspec" -> wrspec | "termchk" -> termchk | "termproj" -> termproj | "screen" -> screen | "edspec" -> edspec
   | "histspec" -> histspec | "argspec" -> argspec | "acspec" -> acspec
   | _ -> dispatch e
